@@ -220,6 +220,11 @@ def can_family(tier, sd=0):
                           ("can", "C", "Cee", {"id": 2047, "bus": "bus1", "device": "ecu2"}, []),
                           ("can", "A", "A2", {"id": 12}, [])])
     out.append(("multi_bus", multi))
+    two = Schema(structs=[("A", [("page", 0, ("u", 4)), ("val", 1, ("u", 12))]), ("B", [("page", 0, ("u", 8)), ("z", 1, ("i", 8))])],
+                 top="A",
+                 impls=[("can", "A", None, {"id": 20, "device": "ecu1"}, [("val", {"mux_count": 4, "mux_signal": "page"})]),
+                        ("can", "B", None, {"id": 21, "device": "ecu1"}, [])])
+    out.append(("mux_then_plain_same_name", two))
     if tier == "thorough":
         kinds = [("u", 1), ("u", 7), ("i", 2), ("i", 15), ("u", 24), ("f32",), ("i", 31)]
         for _ in range(60):
